@@ -28,6 +28,8 @@ type SFile struct {
 	// "definitions" block holding decoys under the same names; "#/$defs/X" must
 	// keep denoting the real ones. Refs into such a file are spelled "#/$defs/".
 	BothDefs bool `json:"both_defs,omitempty"`
+	// CRLF (YAML only): saved with CRLF line ends and block scalars for multi-line text
+	CRLF bool `json:"crlf,omitempty"`
 	// RootObj: the root is {"type":"object", properties...} and carries marker mk_<tag>.
 	RootObj bool `json:"root_obj"`
 }
@@ -145,6 +147,9 @@ func (w *World) File(tag string) *SFile {
 
 // Render a schema file.
 func (f *SFile) Bytes(ko *KeyOrder) []byte {
+	if f.YAML && f.CRLF {
+		return RenderYAMLCRLF(f.Doc, ko)
+	}
 	if f.YAML {
 		return RenderYAML(f.Doc, ko)
 	}
@@ -258,6 +263,7 @@ type Feat struct {
 	Subdirs, Symlink, NoExt, Pkgs, TypelessRoot, OddKeys                   bool
 	RecCombo                                                               bool // allow reference cycles through allOf/anyOf
 	Shadow                                                                 bool // two files named common.json in two directories
+	WeirdName                                                              bool // a file whose name contains %41 / ? next to a decoy named as the decoded form
 	ExtShadow                                                              bool // e0f.json and e0f.yaml side by side, referenced without extension
 	SamePkgBase                                                            bool // mapped packages share their last path element (pk1/v1, pk2/v1): no cross-package refs then
 	Decoys                                                                 bool // inert near-duplicate mapping keys (id + "#", id + "/")
@@ -357,6 +363,7 @@ func genWorld(t *rapid.T, maxFiles int, recCombo, http, shadows bool) *World {
 		feat.ReqCycle = rapid.IntRange(0, 99).Draw(t, "f:reqcycle") < 10
 		feat.Shadow = rapid.IntRange(0, 99).Draw(t, "f:shadow") < 40
 		feat.ExtShadow = rapid.IntRange(0, 99).Draw(t, "f:extshadow") < 30
+		feat.WeirdName = rapid.IntRange(0, 99).Draw(t, "f:weirdname") < 25
 		if feat.Shadow {
 			feat.Subdirs = true
 		}
@@ -386,6 +393,9 @@ func genWorld(t *rapid.T, maxFiles int, recCombo, http, shadows bool) *World {
 		if feat.YAML && rapid.IntRange(0, 1).Draw(t, "yaml") == 0 {
 			f.YAML = true
 			ext = rapid.SampledFrom([]string{".yaml", ".yml"}).Draw(t, "yext")
+		}
+		if f.YAML && rapid.IntRange(0, 2).Draw(t, "crlf") == 0 {
+			f.CRLF = true
 		}
 		f.Base = f.Tag + "f" + ext
 		if feat.IDs || npkg > 1 {
@@ -439,6 +449,17 @@ func genWorld(t *rapid.T, maxFiles int, recCombo, http, shadows bool) *World {
 				Defs: []string{fmt.Sprintf("S%dDa", i)}}
 			w.Files = append(w.Files, sf)
 		}
+	}
+	if feat.WeirdName {
+		// a reference is a literal file name: "w0%41f.json" is not "w0Af.json", "w1?f.json"
+		// is not "w1" with a query; the decoys are what a URL-decoding resolver would open
+		kind := rapid.IntRange(0, 1).Draw(t, "weirdkind")
+		real, decoy := "w0%41f.json", "w0Af.json"
+		if kind == 1 {
+			real, decoy = "w1?f.json", "w1"
+		}
+		w.Files = append(w.Files, &SFile{Tag: "w0", Dir: "", Base: real, Defs: []string{"W0Da"}})
+		w.Files = append(w.Files, &SFile{Tag: "wd", Dir: "", Base: decoy, Defs: []string{"W0Da"}})
 	}
 	if feat.ExtShadow {
 		cands := []struct{ tag, ext string }{{"e0j", ".json"}, {"e0y", ".yaml"}}
@@ -520,7 +541,7 @@ func drawOptions(t *rapid.T, w *World, npkg int) Options {
 		o.Tags = rapid.SampledFrom([][]string{{"json"}, {"yaml"}, {"json", "yaml"}, {"json", "mapstructure"},
 			{"json", "toml", "bson", "db"}, {"yaml", "xml", "json", "custom_a", "custom_b"}, {"mapstructure", "json", "zz", "aa"}}).Draw(t, "tagset")
 	}
-	if b("caps", 15) {
+	if b("caps", 30) {
 		o.Caps = []string{"ID", "URL"}
 	}
 	if w.Feat.NoExt {
@@ -551,6 +572,12 @@ func drawOptions(t *rapid.T, w *World, npkg int) Options {
 			pp := fmt.Sprintf("example.com/m/pk%d", f.Pkg)
 			if w.Feat.SamePkgBase {
 				pp += "/v1"
+			}
+			if SelfNamedDefs && f.Pkg == 1 && w.Feat.OddKeys {
+				// (C12 worlds only) a package whose last element is not a Go identifier: go/format
+				// fails for that output, the tool warns and falls back to unformatted code; the
+				// bytes of every file must still not depend on the order the outputs are visited in
+				pp = "example.com/m/my-pk1"
 			}
 			o.SchemaPkg = append(o.SchemaPkg, Pair{f.ID, pp})
 			o.SchemaOut = append(o.SchemaOut, Pair{f.ID, fmt.Sprintf("out/pk%d/gen.go", f.Pkg)})
@@ -678,6 +705,15 @@ func (g *genCtx) genDoc() {
 		}
 		defs = append(defs, KV{name, Obj{{"type", "object"}, {"properties", Obj{{"selfnamed", Obj{{"type", "boolean"}}}}}}})
 	}
+	var recComboRef string
+	if g.feat.PlainMarkers && g.feat.AllOf && !isSpecial(f) && f.RootObj && g.pct("reccombodef", 30) {
+		// a list-like definition: type object without own properties, fields from allOf, and
+		// an OPTIONAL plain self reference inside the branch - must come out as a pointer
+		name := strings.ToUpper(f.Tag[:1]) + f.Tag[1:] + "Rn"
+		defs = append(defs, KV{name, Obj{{"type", "object"}, {"allOf", []any{Obj{{"type", "object"},
+			{"properties", Obj{{"rnval", Obj{{"type", "string"}}}, {"rnnext", Obj{{"$ref", "#/$defs/" + name}}}}}, {"required", []any{"rnval"}}}}}}})
+		recComboRef = name
+	}
 	var twinRefs []string
 	var nameClash *RefUse
 	if g.feat.Twins && g.feat.PlainMarkers && !isSpecial(f) && len(f.Defs) > 0 && f.RootObj {
@@ -743,6 +779,10 @@ func (g *genCtx) genDoc() {
 			}
 			root = root.Set("properties", po)
 		}
+		if recComboRef != "" {
+			props, _ := root.Get("properties")
+			root = root.Set("properties", append(props.(Obj), KV{f.Tag + "rn", Obj{{"$ref", "#/$defs/" + recComboRef}}}))
+		}
 		if nameClash != nil {
 			props, _ := root.Get("properties")
 			root = root.Set("properties", append(props.(Obj), KV{nameClash.Prop, Obj{{"$ref", nameClash.Ref}}}))
@@ -795,6 +835,19 @@ func (g *genCtx) genMarkerObject(marker, fromDef string) Obj {
 			required = append(required, name)
 		}
 	}
+	// a common word spelled in a different case in every file (api / API / Api): the Go
+	// identifier of each spelling must not depend on which file was seen first
+	if g.feat.OddKeys || len(g.w.Opts.Caps) > 0 {
+		idx := 0
+		for i, wf := range g.w.Files {
+			if wf == g.f {
+				idx = i
+			}
+		}
+		word := []string{"api", "API", "Api", "aPI"}[idx%4]
+		props = append(props, KV{word + "_" + g.f.Tag + fromDef, Obj{{"type", "string"}}})
+		props = append(props, KV{[]string{"Url", "url", "URL", "uRL"}[idx%4] + "_of_" + g.f.Tag + fromDef, Obj{{"type", "integer"}}})
+	}
 	// attributable refs
 	nr := 0
 	if g.feat.LocalRef || g.feat.FileRef {
@@ -842,7 +895,11 @@ func (g *genCtx) genMarkerObject(marker, fromDef string) Obj {
 	}
 	o := Obj{{"type", "object"}}
 	if g.feat.Docs && g.pct("desc", 40) {
-		o = append(o, KV{"description", "Description of " + marker + ".\nSecond line."})
+		if g.pct("longtypedesc", 40) {
+			o = append(o, KV{"description", longDesc})
+		} else {
+			o = append(o, KV{"description", "Description of " + marker + ".\nSecond line."})
+		}
 	}
 	o = append(o, KV{"properties", props})
 	if len(required) > 0 {
@@ -1027,7 +1084,9 @@ func (g *genCtx) mayRequire(v any) bool {
 }
 
 // isSpecial: shadow / extension-shadow files (referenced only by forced refs).
-func isSpecial(f *SFile) bool { return strings.HasPrefix(f.Tag, "s") || strings.HasPrefix(f.Tag, "e") }
+func isSpecial(f *SFile) bool {
+	return strings.HasPrefix(f.Tag, "s") || strings.HasPrefix(f.Tag, "e") || strings.HasPrefix(f.Tag, "w")
+}
 
 // forcedRefs adds the discriminating references to the root struct of file f.
 func (g *genCtx) forcedRefs(props Obj) Obj {
@@ -1059,6 +1118,14 @@ func (g *genCtx) forcedRefs(props Obj) Obj {
 				} else {
 					addC(fmt.Sprintf("%s#/$defs/S%dDa", sp, i), fmt.Sprintf("s%d", i), fmt.Sprintf("S%dDa", i), "shadow", kw)
 				}
+			}
+		}
+	}
+	if g.feat.WeirdName && f == g.w.Files[0] {
+		if wf := g.w.File("w0"); wf != nil {
+			rel, err := filepath.Rel("/"+f.Dir, "/"+wf.Base)
+			if err == nil {
+				add(rel+"#/$defs/W0Da", "w0", "W0Da", "weirdname")
 			}
 		}
 	}
@@ -1142,9 +1209,18 @@ func (g *genCtx) genLeafOrEnum() any {
 	return g.genLeaf()
 }
 
+// longDesc wraps differently at 79 and at 80 columns: its first 16 words make a line of
+// exactly 80 characters. The same text is used for types and for properties, in every
+// file, so that anything that remembers how a text was wrapped the first time shows.
+const longDesc = "abcd efgh ijkl mnop qrst uvwx yzab cdef ghij klmn opqr stuv wxyz abcd efgh ijklm nopq rstu vwxy zabc defg hijk lmno pqrs tuvw xyza bcde fghi jklm nopq rstu vwxy z."
+
 func (g *genCtx) docs(o Obj) Obj {
 	if g.feat.Docs && g.pct("pdesc", 25) {
-		o = append(o, KV{"description", "A described thing"})
+		if g.pct("longdesc", 40) {
+			o = append(o, KV{"description", longDesc})
+		} else {
+			o = append(o, KV{"description", "A described thing"})
+		}
 	}
 	return o
 }
